@@ -26,6 +26,8 @@ pub enum CompilerError {
     InvalidLiteralType(Literal, Type),
     /// The constant was declared in the program but not provided during compilation.
     MissingConstant(String, String, MetaInfo),
+    /// All parameters of the specified function are of size 0, so the circuit would have no inputs.
+    NoInputBits(String),
 }
 
 impl PartialOrd for CompilerError {
@@ -39,6 +41,14 @@ impl Ord for CompilerError {
         match (self, other) {
             (CompilerError::FnNotFound(fn1), CompilerError::FnNotFound(fn2)) => fn1.cmp(fn2),
             (CompilerError::FnNotFound(_), _) => std::cmp::Ordering::Less,
+            (CompilerError::NoInputBits(fn1), CompilerError::NoInputBits(fn2)) => fn1.cmp(fn2),
+            (CompilerError::NoInputBits(_), CompilerError::FnNotFound(_)) => {
+                std::cmp::Ordering::Greater
+            }
+            (CompilerError::NoInputBits(_), _) => std::cmp::Ordering::Less,
+            (CompilerError::InvalidLiteralType(_, _), CompilerError::NoInputBits(_)) => {
+                std::cmp::Ordering::Greater
+            }
             (CompilerError::InvalidLiteralType(_, _), CompilerError::FnNotFound(_)) => {
                 std::cmp::Ordering::Greater
             }
@@ -69,6 +79,9 @@ impl std::fmt::Display for CompilerError {
             }
             CompilerError::MissingConstant(party, identifier, _) => f.write_fmt(format_args!(
                 "The constant {party}::{identifier} was declared in the program but never provided"
+            )),
+            CompilerError::NoInputBits(fn_name) => f.write_fmt(format_args!(
+                "The function '{fn_name}' has no input bits, all of its parameters are of size 0"
             )),
         }
     }
@@ -220,6 +233,10 @@ impl TypedProgram {
                 input_gates.push(type_size);
                 env.let_in_current_scope(param.name.clone(), wires);
             }
+        }
+        if input_gates.iter().all(|bits| *bits == 0) {
+            // a circuit without any input wire cannot even represent the constants 0 and 1
+            return Err(vec![CompilerError::NoInputBits(fn_name.to_string())]);
         }
         let builder_opts = CircuitBuilderOptions {
             cache_gates: opts.optimize_duplicate_gates,
